@@ -279,6 +279,7 @@ def lines_cases(vocab, maxlen):
 
 UNI_CLASSES = {
     "c0": [chr(c) for c in range(0, 32)] + ["\x7f"],
+    "linebreakish": ["\x0b", "\x0c", "\x1c", "\x1d", "\x1e", "\x85", "\u2028", "\u2029"],
     "c1": [chr(c) for c in range(0x80, 0xa0)],
     "space": [c for c in map(chr, list(range(0x3000)) + [0x3000, 0xfeff]) if c.isspace()] + ["​", "⁠", "﻿"],
     "punct": list("¡§«¶·»¿‐–—‘’“”†•…‰′‹›⁂€™←→−≠、。〈〉「」！＂（）"),
